@@ -420,7 +420,7 @@ def configs(tier, seed):
     def names(space, *want):
         return [n for n in want if n in ref.P2E[space]]
 
-    ALLP = ("none", "empty", "one-empty", "partial", "dups", "full", "offgrid", "ongrid")
+    ALLP = ("none", "empty", "one-empty", "partial", "dups", "full", "offgrid", "ongrid", "castable")
 
     # ---- A. finite spaces, explored until the searcher answers None twice (T = size + 2)
     for kind in ("fifo-random", "fifo-grid", "fifo-bo-rand", "hb-stop-random", "hb-prom-random", "hb-stop-bo-rand",
@@ -439,7 +439,7 @@ def configs(tier, seed):
                             out.append(_mk(kind, space, p, seed=sd, W=2, F=0, tv=sd % 2, max_states=3000))
                         continue
                     if q:
-                        if sd == 1 and p not in ("partial", "dups", "full"):
+                        if sd == 1 and p not in ("partial", "dups", "full", "castable"):
                             continue
                         wide = sd == 0 and p in ("partial", "dups") and not (costly and kind.endswith("bo-rand"))
                         out.append(_mk(kind, space, p, seed=sd, W=2 if wide else 1, F=1, tv=sd % 2, max_states=cap))
@@ -450,8 +450,10 @@ def configs(tier, seed):
                             out.append(_mk(kind, space, p, seed=sd, W=1, F=2, tv=1, max_states=cap))
     # a finite space of 200 configurations driven to exhaustion along the single history of one worker (no branching):
     # rejection sampling must neither repeat itself nor give up before the space is used up
-    for p in ("none", "partial"):
+    for p in ("none", "partial", "castable"):
         for sd in (0, 1) if q else (0, 1, 2, 3, 4):
+            if p == "castable" and sd > 0:
+                continue
             out.append(_mk("fifo-random", "fin200", p, seed=sd, W=1, F=0, max_states=None))
     # training script ends before max_t: trials complete after a CONTINUE decision (on_trial_complete path)
     for kind in ("hb-stop-random", "hb-stop-bo-rand"):
@@ -459,7 +461,7 @@ def configs(tier, seed):
             for p in names(space, "none", "partial") if q else names(space, "none", "partial", "dups", "full"):
                 out.append(_mk(kind, space, p, seed=0, W=2, F=1, script=1, max_states=1500 if q else cap))
     for space in ("fin6", "fin4"):
-        for p in names(space, "partial", "dups"):
+        for p in names(space, "partial", "dups", "castable"):
             for sd in (0,) if q else (0, 1, 2):
                 out.append(_mk("fifo-grid-noshuffle", space, p, seed=sd, W=2, F=1, max_states=cap))
                 out.append(_mk("fifo-random-dup", space, p, seed=sd, W=2, F=2, T=6, D=12 if q else 16, max_states=cap))
